@@ -810,6 +810,7 @@ class BaseOdeModel(object):
         Set sp attribute, which is collection of all states and vars
         TODO: testing this out still
         '''
+        old_sp = getattr(self, '_sp', None)
         self._s = self._stateList + [self._t]
         self._sp = self._s + self._paramList
 
@@ -826,7 +827,12 @@ class BaseOdeModel(object):
                  self._sp[i] = self._paramDict[item.ID]
             except Exception:
                  pass
-            
+
+        # compiled evaluators take self._sp as their argument list: when it
+        # changes (a state or parameter was added since) they must be rebuilt
+        if old_sp is not None and old_sp != self._sp:
+            self._hasNewTransition.trip()
+
         return None
 
     def get_state_index(self, input_str):
